@@ -10,3 +10,4 @@ import IsoVerif.Lemmas.PicoSem
 import IsoVerif.Lemmas.PicoStage2
 import IsoVerif.Lemmas.PicoInc8
 import IsoVerif.Lemmas.PicoQuiet
+import IsoVerif.Lemmas.PicoJust
